@@ -709,6 +709,120 @@ LEXER_FAMILIES = {
 }
 
 
+# ---------------------------------------------------------------------------
+# systematic escape families: every escape kind x {char constant, string} x
+# prefix x shape; a member = n repetitions of the escape inside the literal
+# ---------------------------------------------------------------------------
+ESCAPE_KINDS = {
+    "plain": "a",
+    "plain_pair": "ab",
+    # simple escapes, one per character class of the lexer's escape regexes
+    "simple_letter": BS + "n",
+    "lenient_lower": BS + "d",
+    "lenient_upper": BS + "D",
+    "backslash": BS + BS,
+    "quote": BS + "'",
+    "dquote": BS + '"',
+    "qmark": BS + "?",
+    "punct_dot": BS + ".",
+    "punct_caret": BS + "^",
+    "punct_minus": BS + "-",
+    "bare_x": BS + "x",
+    "x_then_letter": BS + "xg",
+    # numeric escapes
+    "octal1": BS + "1",
+    "octal2": BS + "12",
+    "octal3": BS + "123",
+    "decimal1": BS + "9",
+    "decimal_run": BS + "1234567890",
+    "hex1": BS + "x4",
+    "hex2": BS + "x4f",
+    "hex_run": BS + "x4f60abcd",
+    # universal character names (and their truncated forms)
+    "ucn4": BS + "u4f60",
+    "ucn8": BS + "U0001F600",
+    "ucn4_short": BS + "u4f",
+    "ucn8_short": BS + "U0001",
+    "ucn4_long": BS + "u4f60a",
+    # not an escape at all
+    "bad_percent": BS + "%",
+    "bad_paren": BS + "(",
+}
+ESCAPE_PREFIXES = ("", "L", "u8", "u", "U")
+# shape -> (text after the opening quote, text after the body; Q = the quote)
+ESCAPE_SHAPES = {
+    "terminated": ("", "Q"),  # a char constant of > 4 units is over-long
+    "unterminated_eol": ("", "\n;"),
+    "unterminated_eof": ("", ""),
+    "bad_escape_end": ("", BS + "%Q"),
+    "bad_escape_start": (BS + "%", "Q"),
+    "bad_escape_end_unterminated": ("", BS + "(\n;"),
+}
+ESCAPE_SMALL = (8, 12, 16, 20, 24, 28)
+ESCAPE_MEDIUM = (64, 256, 1024)
+
+
+def escape_text(kinds, quote, prefix, shape, n):
+    """prefix + quote + (unit of each kind in turn) * n + shape's tail."""
+    lead, tail = ESCAPE_SHAPES[shape]
+    unit = "".join(ESCAPE_KINDS[k] for k in kinds)
+    return prefix + quote + lead + unit * n + tail.replace("Q", quote)
+
+
+def escape_families(tier):
+    """-> list of (kinds tuple, quote, prefix, shape, sizes).  Single kinds:
+    everything.  Mixed alternations of two kinds (unordered): quick = no
+    prefix, three shapes, small sizes; thorough = prefixes '' and L, all
+    shapes, small and medium sizes."""
+    out = []
+    sizes = ESCAPE_SMALL + ESCAPE_MEDIUM
+    names = list(ESCAPE_KINDS)
+    for k in names:
+        for q in ("'", '"'):
+            for pre in ESCAPE_PREFIXES:
+                for sh in ESCAPE_SHAPES:
+                    out.append(((k,), q, pre, sh, sizes))
+    quick = tier == "quick"
+    mixed_pre = ("",) if quick else ("", "L")
+    mixed_sh = (("terminated", "unterminated_eof", "bad_escape_end") if quick
+                else tuple(ESCAPE_SHAPES))
+    mixed_sizes = ESCAPE_SMALL if quick else sizes
+    for i, a in enumerate(names):
+        for b in names[i + 1:]:
+            for q in ("'", '"'):
+                for pre in mixed_pre:
+                    for sh in mixed_sh:
+                        out.append(((a, b), q, pre, sh, mixed_sizes))
+    return out
+
+
+def lex_time_small(text, repeat=3, limit=10.0):
+    """Like lex_time for inputs of a few hundred characters: the warm-up run is
+    timed too (no memory effects at this size) and the watchdog is short.
+    -> (seconds, tokens, errors) | ('timeout', 'run', limit)."""
+    import signal
+
+    old = signal.signal(signal.SIGALRM, _alarm)
+    try:
+        best = None
+        ntok = nerr = 0
+        for _ in range(repeat):
+            try:
+                signal.setitimer(signal.ITIMER_REAL, limit)
+                dt, ntok, nerr = _lex_once(text)
+            except LexTimeout:
+                return ("timeout", "run", limit)
+            finally:
+                signal.setitimer(signal.ITIMER_REAL, 0)
+            if best is None or dt < best:
+                best = dt
+            if dt >= 1.0:  # seconds for one run: no point in repeating it
+                break
+        return best, ntok, nerr
+    finally:
+        signal.signal(signal.SIGALRM, old)
+
+
 if __name__ == "__main__":  # --selfcheck: the measure is a function of the text
     sys.path.insert(0, os.environ.get("VERIF_REPO", "/repo"))
     for _t in ("int x;", nest_text(["paren"] * 8), nest_text(["cast", "struct_nest"] * 4),
